@@ -2,8 +2,11 @@
 
 from itertools import cycle
 from math import ceil, hypot
+from xml.etree import ElementTree
 
+from ..logger import LOGGER
 from ..matrix import Matrix
+from ..urls import fetch
 from .bounding_box import bounding_box, is_valid_bounding_box
 from .utils import alpha_value, color, parse_url, size, transform
 
@@ -30,14 +33,24 @@ def get_use_tree(svg, node, font_size):
                 svg.use_cache[parsed_url.fragment] = tree
     else:
         url = parsed_url.geturl()
-        try:
-            bytestring_svg = svg.url_fetcher(url)
-            use_svg = SVG(bytestring_svg, url, svg.url_fetcher)
-        except Exception:
+        if url not in svg.use_cache:
+            svg.use_cache[url] = None
+            try:
+                with fetch(svg.url_fetcher, url) as result:
+                    if 'string' in result:
+                        string = result['string']
+                    else:
+                        string = result['file_obj'].read()
+                use_tree = SVG(
+                    ElementTree.fromstring(string), url, svg.url_fetcher).tree
+                if parsed_url.fragment:
+                    use_tree = use_tree.get_child(parsed_url.fragment)
+                svg.use_cache[url] = use_tree
+            except Exception as exception:
+                LOGGER.error('Failed to load SVG at %s: %s', url, exception)
+        if svg.use_cache[url] is None:
             return
-        else:
-            use_svg.get_intrinsic_size(font_size)
-            tree = use_svg.tree
+        tree = svg.use_cache[url].copy()
 
     return tree
 
